@@ -39,7 +39,7 @@ def check(F, rep):
         srcs = copy_sources(f, ckl, stop=verified) if ckl is not None and not ck["p"].get("p") else set()
         if ckl is not None and ck["p"].get("p"):
             srcs = {("place", ckl, tuple(e[2] for e in ck["p"]["p"] if e[0] == "f"))}
-        same = bool(srcs) and all(sx[0] == "place" and sx[1] in verified and sx[2] == ("public_key",) for sx in srcs)
+        same = bool(srcs) and all(sx[0] == "place" and sx[1] in verified and sx[2][-1:] == ("public_key",) for sx in srcs)
         rep.ob("provenance", same, site(f, b),
                "client_key must be exactly the public_key field of the verified client_auth value; sources: %s"
                % sorted(str(x) for x in srcs), skey(F, f, "ctor-key-from-verified:" + mech))
